@@ -314,7 +314,107 @@ fn grouping(m: &Model, ctx: &mut Ctx) {
 /// three situations that matter: the type lives in another module and is not imported yet (added), is imported already
 /// (not added twice), or is defined in the importing module itself (never added: `use super::<own module>::T` inside
 /// the module that defines T is a second definition of the name).
+/// C12.assoc (merge): the imports found by associated_import_type are merged into the header of the importing module by the
+/// loop over `associated_type_imports` in fill_in_associated_type_imports: a type of a module that is imported from already
+/// joins that clause (once), a type of a module that is not imported from yet gets a clause of its own. The loop body is
+/// evaluated import by import, the header it borrows mutably being handed from one round to the next.
+fn associated_imports_merge(m: &Model, ctx: &mut Ctx) {
+    let rule = "C12.assoc";
+    let Some(f) = m.fns.iter().find(|f| f.self_ty.as_deref() == Some("Validator") && f.krate == "rasn-compiler" && model::method_calls_in(&f.block).iter().any(|mc| mc.method == "associated_import_type") && f.name != "associated_import_type" && f.name != "associated_import_type_class_field") else {
+        ctx.fail_closed(rule, "anchor not found: the caller of associated_import_type");
+        return;
+    };
+    struct Loops { out: Vec<syn::ExprForLoop> }
+    impl model::DeepCb for Loops {
+        fn expr(&mut self, e: &syn::Expr) {
+            if let syn::Expr::ForLoop(fl) = e {
+                if tok(&fl.expr).contains("associated_type_imports") {
+                    self.out.push(fl.clone());
+                }
+            }
+        }
+    }
+    let mut lp = Loops { out: vec![] };
+    model::deep_walk_block(&f.block, &mut lp);
+    let Some(fl) = lp.out.first() else {
+        ctx.fail_closed(rule, &format!("{}: no loop over the associated imports", f.name));
+        return;
+    };
+    let consts = const_resolver(m);
+    let named = |n: &str, fields: Vec<(&str, Val)>| Val::Ctor(n.to_string(), vec![], fields.into_iter().map(|(k, v)| (k.to_string(), v)).collect::<BTreeMap<_, _>>());
+    let gmr = |module: &str| named("GlobalModuleReference", vec![("module_reference", Val::Str(module.into())), ("assigned_identifier", Val::ctor("Empty"))]);
+    let import = |module: &str, types: &[&str]| named("Import", vec![("types", Val::List(types.iter().map(|t| Val::Str(t.to_string())).collect())), ("global_module_reference", gmr(module)), ("with", Val::none())]);
+    let header = std::cell::RefCell::new(named("ModuleHeader", vec![("name", Val::Str("Alpha".into())), ("imports", Val::List(vec![import("Beta", &["X"]), import("Delta", &["Y"])]))]));
+    let hook = |_: &Evaluator, name: &str, a: &[Val]| -> Option<Result<Val, String>> {
+        match (name, a.first()) {
+            (".borrow_mut", Some(Val::Opaque(s))) | (".borrow", Some(Val::Opaque(s))) if s == "header" => Some(Ok(header.borrow().clone())),
+            (".not", Some(Val::Bool(b))) => Some(Ok(Val::Bool(!b))),
+            _ => None,
+        }
+    };
+    let ev = Evaluator { consts: &consts, call_hook: &hook, inline: None };
+    let pat_name = tok(&fl.pat).replace("mut ", "");
+    // the name the loop body gives to the mutable borrow of the header
+    struct Lets { out: Vec<String> }
+    impl model::DeepCb for Lets {
+        fn local(&mut self, l: &syn::Local) {
+            if let Some(i) = &l.init {
+                if tok(&i.expr).contains("borrow_mut") {
+                    self.out.push(tok(&l.pat).replace("mut ", ""));
+                }
+            }
+        }
+    }
+    let mut lets = Lets { out: vec![] };
+    model::deep_walk_block(&fl.body, &mut lets);
+    let Some(borrowed) = lets.out.first().cloned() else {
+        ctx.fail_closed(rule, &format!("{}: the loop does not borrow the header mutably", f.name));
+        return;
+    };
+    ctx.oblige(rule, "merge:joins-existing-clause", true);
+    ctx.oblige(rule, "merge:new-clause", true);
+    ctx.oblige(rule, "merge:no-duplicate", true);
+    for imp in [import("Beta", &["Level"]), import("Gamma", &["Other"]), import("Beta", &["X"])] {
+        let mut env = Env::new();
+        env.insert("module_header".into(), Val::Opaque("header".into()));
+        env.insert(pat_name.clone(), imp);
+        match ev.eval_block(&fl.body, &mut env) {
+            Ok(_) => match env.get(&borrowed) {
+                Some(h) => *header.borrow_mut() = h.clone(),
+                None => {
+                    ctx.fail_closed(rule, &format!("{}: the mutable borrow `{}` is not visible after the loop body", f.name, borrowed));
+                    return;
+                }
+            },
+            Err(e) => {
+                ctx.fail_closed(rule, &format!("[merge of associated imports]: {}", e));
+                return;
+            }
+        }
+    }
+    let got: Vec<(String, Vec<String>)> = match &*header.borrow() {
+        Val::Ctor(_, _, fl) => match fl.get("imports") {
+            Some(Val::List(l)) => l.iter().map(|i| match i {
+                Val::Ctor(_, _, f2) => (
+                    match f2.get("global_module_reference") { Some(Val::Ctor(_, _, g)) => g.get("module_reference").map(|v| v.show().trim_matches('"').to_string()).unwrap_or_default(), _ => String::new() },
+                    match f2.get("types") { Some(Val::List(t)) => t.iter().map(|v| v.show().trim_matches('"').to_string()).collect(), _ => vec![] },
+                ),
+                o => (o.show(), vec![]),
+            }).collect(),
+            _ => vec![],
+        },
+        _ => vec![],
+    };
+    let want: Vec<(String, Vec<String>)> = vec![("Beta".into(), vec!["X".into(), "Level".into()]), ("Delta".into(), vec!["Y".into()]), ("Gamma".into(), vec!["Other".into()])];
+    if got != want {
+        let key = if !got.iter().any(|(m2, _)| m2 == "Gamma") { "merge:new-clause" } else if got.iter().any(|(m2, t)| m2 == "Beta" && t.iter().filter(|x| *x == "X").count() > 1) { "merge:no-duplicate" } else { "merge:joins-existing-clause" };
+        ctx.violate(rule, key, &f.file, crate::rules::util::span_line(fl),
+            &format!("module Alpha imports X from Beta and Y from Delta; the linker finds that it also needs Level (of Beta), Other (of Gamma) and X (of Beta, again): afterwards its imports are {:?}, expected {:?} — a governing type that is not imported is named by the bindings of Alpha without a use line (or is attributed to the wrong sibling module)", got, want));
+    }
+}
+
 fn associated_imports(m: &Model, ctx: &mut Ctx) {
+    associated_imports_merge(m, ctx);
     let Some(f) = anchor_fn(m, ctx, "C12.assoc", Some("Validator"), "associated_import_type", None) else { return };
     let consts = const_resolver(m);
     let params: Vec<String> = f.sig.inputs.iter().filter_map(|a| match a { syn::FnArg::Typed(t) => Some(tok(&t.pat)), _ => None }).collect();
